@@ -638,6 +638,11 @@ class BloomFilterOnDisk(BloomFilter):
     def __bytes__(self) -> bytes:
         return bytes(self._bloom)
 
+    def clear(self) -> None:
+        """Clear or reset the Bloom Filter, including the element count stored in the file"""
+        super().clear()
+        self.__update()
+
     def close(self) -> None:
         """Clean up the BloomFilterOnDisk object"""
         if self.__file_pointer is not None and not self.__file_pointer.closed:
